@@ -308,6 +308,12 @@ def apply(seq, op, world: World):
         from pulser import Pulse
 
         return seq.add(Pulse.ConstantPulse(op[2], _var(seq, op[1], world), 0.0, 0.0), op[3])
+    if k == "eom_pulse_v":  # EOM pulse whose duration is a variable
+        return seq.add_eom_pulse(op[2], _var(seq, op[1], world), 0.0)
+    if k == "enable_eom_v":  # EOM mode whose amplitude is a variable
+        return seq.enable_eom_mode(op[2], _var(seq, op[1], world), 0.0)
+    if k == "modify_eom_v":
+        return seq.modify_eom_setpoint(op[2], _var(seq, op[1], world), 0.0)
     if k == "raw":  # ("raw", method, args, kwargs) — for deliberately ill-typed calls
         return getattr(seq, op[1])(*op[2], **(op[3] if len(op) > 3 else {}))
     if k == "add_obj":  # a non-Pulse object
@@ -367,8 +373,10 @@ def read_only(seq, op, world):
 def op_channels(op) -> tuple:
     """Names of the channels an op may append slots to."""
     k = op[0]
-    if k in ("add", "delay", "target", "target_index", "add_dmm"):
+    if k in ("add", "delay", "target", "target_index", "add_dmm", "eom_pulse_v", "enable_eom_v", "modify_eom_v", "delay_v"):
         return (op[2],)
+    if k == "add_v":
+        return (op[3],)
     if k == "align":
         return tuple(op[1])
     if k in ("enable_eom", "modify_eom", "eom_pulse", "disable_eom", "declare"):
